@@ -5,6 +5,7 @@ use crate::hist::{history_brief, history_strategy, History, World};
 use crate::model::percentiles;
 use crate::sut::{self, Filter};
 use bitcoin::hashes::Hash;
+use proptest::prelude::*;
 use proptest::strategy::{BoxedStrategy, Strategy};
 
 pub struct C02;
@@ -118,8 +119,8 @@ impl Property for C02 {
     }
     fn strategy(&self, tier: Tier) -> BoxedStrategy<History> {
         match tier {
-            Tier::Quick => history_strategy(24, 2, true, true).boxed(),
-            Tier::Thorough => history_strategy(48, 3, true, true).boxed(),
+            Tier::Quick => prop_oneof![6 => history_strategy(24, 2, true, true), 2 => crate::hist::small_difficulty_tree_strategy(5, 9, THRESHOLD_EXH), 1 => crate::hist::tie_side_branch_strategy(THRESHOLD_EXH)].boxed(),
+            Tier::Thorough => prop_oneof![6 => history_strategy(48, 3, true, true), 2 => crate::hist::small_difficulty_tree_strategy(6, 12, THRESHOLD_EXH), 1 => crate::hist::tie_side_branch_strategy(THRESHOLD_EXH)].boxed(),
         }
     }
     fn cases(&self, tier: Tier) -> u32 {
@@ -129,7 +130,7 @@ impl Property for C02 {
         }
     }
     fn rule(&self) -> String {
-        "Generated fork trees (arrival orders, difficulty modes equal / constant / random 1..20 / heavy-short-vs-light-long, thresholds 1..12, three networks, upgrades, threshold changes); after every operation the model's best tip (maximum over all leaf paths of (accumulated difficulty, length), remaining ties by first-received child at the first divergence) is compared with get_blockchain_info (hash, height, timestamp, difficulty), the tip named by unfiltered get_utxos for every pool address, get_balance against the model ledger at that tip, get_block_headers without end, and the fee percentiles. A state is non-trivial when the tree has >= 2 leaves and (the best chain is not the longest, or there is an exact tie on accumulated difficulty, or the best tip changed to another branch in this step); distinct = distinct tree-shape hashes.".into()
+        "Generated fork trees (arrival orders, difficulty modes equal / constant / random 1..20 / heavy-short-vs-light-long, thresholds 1..12, three networks, upgrades, threshold changes; two cases in nine are uniformly drawn fork trees and one in nine is a constructed pair of exactly tied branches with a side branch of difficulty-1 blocks below one of them; the uniformly drawn ones are a fork tree of 5..9 (thorough 6..12) blocks with difficulties from {1,2,3}, where exact ties and nested lighter-but-longer side branches are frequent); after every operation the model's best tip (maximum over all leaf paths of (accumulated difficulty, length), remaining ties by first-received child at the first divergence) is compared with get_blockchain_info (hash, height, timestamp, difficulty), the tip named by unfiltered get_utxos for every pool address, get_balance against the model ledger at that tip, get_block_headers without end, and the fee percentiles. A state is non-trivial when the tree has >= 2 leaves and (the best chain is not the longest, or there is an exact tie on accumulated difficulty, or the best tip changed to another branch in this step); distinct = distinct tree-shape hashes.".into()
     }
     fn assumptions(&self) -> Vec<String> {
         vec![
@@ -141,7 +142,7 @@ impl Property for C02 {
         history_brief(case)
     }
     fn required_classes(&self, _tier: Tier) -> Vec<&'static str> {
-        vec!["best_not_longest", "exact_difficulty_tie", "step_reorg", "step_anchor_advance", "net_mainnet", "net_testnet", "net_regtest"]
+        vec!["best_not_longest", "exact_difficulty_tie", "tie_loser_has_deeper_subtree", "step_reorg", "step_anchor_advance", "net_mainnet", "net_testnet", "net_regtest"]
     }
     fn extra_cases(&self, tier: Tier) -> Vec<History> {
         // exhaustive: every fork tree (shape x arrival order) x difficulties in {1,2,3}
@@ -188,6 +189,20 @@ impl Property for C02 {
                     out.class("exact_difficulty_tie");
                     if !m.best_chain_is_tie_free() {
                         out.class("tie_decided_by_arrival_order");
+                    }
+                }
+                // a tie (on difficulty) at a divergence of the best chain whose losing side has a
+                // lighter but longer side branch: its subtree is deeper than the winner's chain
+                {
+                    let sum = |c: &Vec<usize>| -> u128 { c.iter().map(|b| m.blocks[*b].diff).sum() };
+                    for win in best.windows(2) {
+                        let (node, w_child) = (win[0], win[1]);
+                        let w_chain = m.best_chain_from(w_child);
+                        for c in m.blocks[node].children.iter().filter(|c| **c != w_child && m.live.contains(*c)) {
+                            if sum(&m.best_chain_from(*c)) == sum(&w_chain) && m.depth(*c) as usize > w_chain.len() {
+                                out.class("tie_loser_has_deeper_subtree");
+                            }
+                        }
                     }
                 }
                 if not_longest || tie || info.reorg {
